@@ -8,7 +8,8 @@
      scalar  = 0 null | 1 true | 2 false | 3,n | 4,z | 5,q | 6,len,units..  ; 7 = none
      ops     = 0 | 1,t,p,v | 2,t,k,p,v | 3,t,i,p,v | 4,t,p,v | 5,t1,t2,mv | 6,t1,t2,mv | 7,t1,k,t2
              | 8,t,k,v | 9,t,i | 10,t | 11,t | 12,t1,t2,ctor | 13,t1,t2,ctor | 14,t,id | 15,t,id
-             | 16,t,n,p | 17,t | 18,t1,t2,k | 19,t,k        (id 9 = null; k = len,units..; v = overload variant) *)
+             | 16,t,n,p | 17,t | 18,t1,t2,k | 19,t,k | 20,t,kind,v | 21,t1,t2,v | 22,t1,t2,v
+               (id 9 = null; k = len,units..; kind = ValueType value; v = overload variant) *)
 
 let string_of_units (l : n list) : string =
   let b = Buffer.create 256 in
@@ -61,6 +62,9 @@ let parse_op (s : string) : op =
   | 17 -> ORead (target ())
   | 18 -> let t1 = target () in let t2 = target () in let k = str () in OGroupBy (t1, t2, k)
   | 19 -> let t = target () in let k = str () in ORender (t, k)
+  | 20 -> let t = target () in let k = n_of_string (next ()) in OAssignKind (t, k)
+  | 21 -> let t1 = target () in let t2 = target () in OAssignCont (t1, t2)
+  | 22 -> let t1 = target () in let t2 = target () in OAppendCont (t1, t2)
   | _ -> raise Bad
 
 let parse_history (h : string) : op list =
